@@ -252,6 +252,7 @@ pub fn run_sched(
             let ok = matches!((&a, &b), (Some((ca, _)), Some((cb, _))) if *ca == f.clause && *cb == f.clause);
             if ok {
                 validated += 1;
+                rep.validated_findings += 1;
             } else {
                 rep.machinery.push(format!(
                     "{}: finding {} {} did not reproduce identically on replay: {:?} / {:?}",
